@@ -58,6 +58,13 @@ enum Rg {
     Range(u64, u64),
     UpTo(u64),
 }
+/// an honest ancillary download made first with the SAME client (its manifest signature has then been
+/// seen and verified by that client once)
+#[derive(Clone, Debug)]
+struct Prior {
+    files: Vec<(String, u64)>,
+    manifest: Manifest,
+}
 #[derive(Clone, Debug)]
 struct Scenario {
     kind: String,
@@ -68,11 +75,27 @@ struct Scenario {
     anc: bool,
     has_key: bool,
     net_known: bool,
+    /// max_parallel_downloads
+    par: usize,
     imm: Vec<(u64, Vec<Location>)>,
     anc_locs: Vec<Location>,
     manifests: Vec<Manifest>,
-    zstd: [bool; 2],
+    /// per location index: 0 gzip, 1 zstd, 2 no compression (the served bytes are written as one file
+    /// named after the download id)
+    comp: [u8; 2],
+    prior: Option<Prior>,
+    /// implementation-only case (no model term): outcome depends on thread timing
+    impl_only: bool,
+    /// digests whose hex text occurs inside a path of this case
+    hex_tokens: Vec<(String, u64)>,
 }
+
+const BIG_LO: u64 = 7_000_000;
+const BIG_HI: u64 = 8_000_000;
+const RAW_IMM: u64 = 8_000_000;
+const RAW_ANC: u64 = 8_500_000;
+const FIRST_READ: usize = 64 * 1024;
+const DLID: &str = "DOWNLOAD-ID";
 
 fn content_bytes(id: u64, blobs: &HashMap<u64, Vec<u8>>) -> Vec<u8> {
     if let Some(b) = blobs.get(&id) {
@@ -81,6 +104,20 @@ fn content_bytes(id: u64, blobs: &HashMap<u64, Vec<u8>>) -> Vec<u8> {
     match id {
         0 => vec![],
         1 => MAGIC.to_vec(),
+        // a family of large contents: ids with the same id / 10 share their first 64 KiB (the size of
+        // the read buffer of AncillaryFilesManifest::compute_file_hash) and differ only after it
+        _ if (BIG_LO..BIG_HI).contains(&id) => {
+            let base = id / 10;
+            let mut v: Vec<u8> = (0..FIRST_READ as u64).map(|j| ((base.wrapping_mul(31) + j * 7 + (j >> 9)) % 251) as u8).collect();
+            match id % 10 {
+                0 => v.extend_from_slice(b"tail of the original file\n"),
+                1 => v.extend_from_slice(b"tail of the ALTERED  file\n"),
+                2 => {} // cut exactly at the end of the first read
+                3 => v.extend_from_slice(b"tail of the original file\nand something appended\n"),
+                k => v.extend(std::iter::repeat(k as u8).take(3 * FIRST_READ)),
+            }
+            v
+        }
         _ => {
             let mut v = format!("file content #{id}\n").into_bytes();
             v.extend(std::iter::repeat((id % 251) as u8).take((id % 4) as usize * 1500));
@@ -110,11 +147,20 @@ fn tar_bytes(a: &Archive, blobs: &HashMap<u64, Vec<u8>>) -> Vec<u8> {
     let mut b = tar::Builder::new(Vec::new());
     for (path, id) in a.entries.iter().take(take) {
         let data = content_bytes(*id, blobs);
+        if path.len() >= 100 {
+            // GNU long-name extension (no such path has a `..` component)
+            let mut h = tar::Header::new_gnu();
+            h.set_size(data.len() as u64);
+            h.set_mode(0o644);
+            h.set_mtime(1_700_000_000);
+            h.set_entry_type(tar::EntryType::Regular);
+            b.append_data(&mut h, path, &data[..]).unwrap();
+            continue;
+        }
         let mut h = tar::Header::new_old();
         {
             let name = &mut h.as_old_mut().name;
             let p = path.as_bytes();
-            assert!(p.len() < 100);
             name[..p.len()].copy_from_slice(p); // raw name: `..` components are the archive's business
         }
         h.set_size(data.len() as u64);
@@ -132,18 +178,22 @@ fn tar_bytes(a: &Archive, blobs: &HashMap<u64, Vec<u8>>) -> Vec<u8> {
     }
     raw
 }
-fn write_archive(file: &Path, a: &Archive, zstd_: bool, blobs: &HashMap<u64, Vec<u8>>) {
+fn write_archive(file: &Path, a: &Archive, comp: u8, blobs: &HashMap<u64, Vec<u8>>) {
     let raw = tar_bytes(a, blobs);
     std::fs::create_dir_all(file.parent().unwrap()).unwrap();
-    let out = std::fs::File::create(file).unwrap();
-    if zstd_ {
-        let mut e = zstd::Encoder::new(out, 3).unwrap();
-        e.write_all(&raw).unwrap();
-        e.finish().unwrap();
-    } else {
-        let mut e = flate2::write::GzEncoder::new(out, flate2::Compression::default());
-        e.write_all(&raw).unwrap();
-        e.finish().unwrap();
+    let mut out = std::fs::File::create(file).unwrap();
+    match comp {
+        1 => {
+            let mut e = zstd::Encoder::new(out, 3).unwrap();
+            e.write_all(&raw).unwrap();
+            e.finish().unwrap();
+        }
+        0 => {
+            let mut e = flate2::write::GzEncoder::new(out, flate2::Compression::default());
+            e.write_all(&raw).unwrap();
+            e.finish().unwrap();
+        }
+        _ => out.write_all(&raw).unwrap(),
     }
 }
 
@@ -161,9 +211,54 @@ fn listing(root: &Path, rel: &str, out: &mut Vec<(String, Vec<u8>)>) {
     }
 }
 
+// ---------- what the model and the oracle see ----------
+/// the manifest data as the code holds it: a BTreeMap keyed by PathBuf (component-wise order, the
+/// last of two equal keys wins)
+fn canon(d: &[(String, Dv)]) -> Vec<(String, Dv)> {
+    let m: BTreeMap<PathBuf, (String, Dv)> = d.iter().map(|(p, v)| (PathBuf::from(p), (p.clone(), v.clone()))).collect();
+    m.into_values().collect()
+}
+/// a location served without compression is not unpacked: its bytes become ONE file named after the
+/// download id in the unpack directory - i.e. it behaves as an archive with that single entry
+fn effective_loc(l: &Location, comp: u8, raw_id: u64) -> Location {
+    match l {
+        Some(_) if comp == 2 => Some(Archive { entries: vec![(DLID.to_string(), raw_id)], fail_after: None }),
+        other => other.clone(),
+    }
+}
+fn effective_imm(s: &Scenario) -> Vec<(u64, Vec<Location>)> {
+    s.imm.iter().map(|(n, ls)| (*n, ls.iter().enumerate().map(|(i, l)| effective_loc(l, s.comp[i], RAW_IMM + n * 10 + i as u64)).collect())).collect()
+}
+fn effective_anc(s: &Scenario) -> Vec<Location> {
+    s.anc_locs.iter().enumerate().map(|(i, l)| effective_loc(l, s.comp[i], RAW_ANC + i as u64)).collect()
+}
+
 // ---------- Coq terms ----------
+thread_local! {
+    /// (64 hex characters of the digest of content id, id): such text inside a path is rendered in the
+    /// model's paths as the single element HEXTOK id = 256 + id
+    static HEX_TOKENS: std::cell::RefCell<Vec<(String, u64)>> = const { std::cell::RefCell::new(vec![]) };
+}
+fn tokens(p: &str) -> Vec<u64> {
+    let toks = HEX_TOKENS.with(|t| t.borrow().clone());
+    let b = p.as_bytes();
+    let mut out = vec![];
+    let mut i = 0;
+    'outer: while i < b.len() {
+        for (h, id) in &toks {
+            if b[i..].starts_with(h.as_bytes()) {
+                out.push(256 + id);
+                i += h.len();
+                continue 'outer;
+            }
+        }
+        out.push(b[i] as u64);
+        i += 1;
+    }
+    out
+}
 fn cpath(s: &str) -> String {
-    coq::bytes(s.as_bytes())
+    coq::list_n(&tokens(s))
 }
 fn cfs(f: &[(String, u64)]) -> String {
     coq::list(&f.iter().map(|(p, c)| format!("({}, {})", cpath(p), coq::n(*c))).collect::<Vec<_>>())
@@ -185,7 +280,7 @@ fn cdv(d: &Dv) -> String {
     }
 }
 fn cdata(d: &[(String, Dv)]) -> String {
-    coq::list(&d.iter().map(|(p, v)| format!("({}, {})", cpath(p), cdv(v))).collect::<Vec<_>>())
+    coq::list(&canon(d).iter().map(|(p, v)| format!("({}, {})", cpath(p), cdv(v))).collect::<Vec<_>>())
 }
 fn cmanifest(m: &Manifest) -> String {
     let sig = match &m.sig {
@@ -202,12 +297,12 @@ fn cscenario(s: &Scenario) -> String {
         Rg::Range(a, b) => format!("RRange {} {}", coq::n(*a), coq::n(*b)),
         Rg::UpTo(b) => format!("RUpTo {}", coq::n(*b)),
     };
-    let imm = coq::list(&s.imm.iter().map(|(n, ls)| format!("({}, {})", coq::n(*n), coq::list(&ls.iter().map(cloc).collect::<Vec<_>>()))).collect::<Vec<_>>());
+    let imm = coq::list(&effective_imm(s).iter().map(|(n, ls)| format!("({}, {})", coq::n(*n), coq::list(&ls.iter().map(cloc).collect::<Vec<_>>()))).collect::<Vec<_>>());
     format!(
-        "{{| s_init := {}; s_beacon := {}; s_range := {}; s_allow_override := {}; s_anc := {}; s_vk := {}; s_net_known := {}; s_imm := {}; s_anc_locs := {}; s_tbl := {} |}}",
+        "{{| s_init := {}; s_beacon := {}; s_range := {}; s_allow_override := {}; s_anc := {}; s_vk := {}; s_net_known := {}; s_par := {}; s_imm := {}; s_anc_locs := {}; s_tbl := {} |}}",
         cfs(&s.init), coq::n(s.beacon), rg, coq::b(s.allow_override), coq::b(s.anc),
-        if s.has_key { "(Some 1%N)" } else { "None" }, coq::b(s.net_known), imm,
-        coq::list(&s.anc_locs.iter().map(cloc).collect::<Vec<_>>()),
+        if s.has_key { "(Some 1%N)" } else { "None" }, coq::b(s.net_known), coq::n(s.par as u64), imm,
+        coq::list(&effective_anc(s).iter().map(cloc).collect::<Vec<_>>()),
         coq::list(&s.manifests.iter().map(cmanifest).collect::<Vec<_>>())
     )
 }
@@ -216,23 +311,36 @@ fn cscenario(s: &Scenario) -> String {
 struct Gen<'a> {
     rng: &'a mut Rng,
     next: u64,
+    /// counters that make the alteration kinds cycle instead of being sampled
+    hostile_no: u64,
+    anc_no: u64,
 }
 impl Gen<'_> {
     fn fresh(&mut self) -> u64 {
         self.next += 1;
         if self.rng.chance(1, 40) { 0 } else { self.next }
     }
+    fn fresh_nonempty(&mut self) -> u64 {
+        self.next += 1;
+        self.next
+    }
 }
 
-fn gen_imm_archive(g: &mut Gen, n: u64, beacon: u64, kinds: &mut Vec<String>, hostile: bool) -> Archive {
+const N_HOSTILE: u64 = 16;
+const LOOKALIKES: u64 = 9;
+
+fn gen_imm_archive(g: &mut Gen, n: u64, beacon: u64, lo: u64, kinds: &mut Vec<String>, hostile: bool) -> Archive {
     let mut entries: Vec<(String, u64)> = trio(n).iter().map(|p| (p.clone(), g.fresh())).collect();
     if hostile {
         let k = g.rng.range(1, 3);
         for _ in 0..k {
-            let (tag, path) = match g.rng.below(12) {
+            let no = g.hostile_no;
+            g.hostile_no += 1;
+            let round = no / N_HOSTILE;
+            let (tag, path) = match no % N_HOSTILE {
                 0 => ("ledger-entry", format!("ledger/{}/state", g.rng.range(100, 999))),
                 1 => ("volatile-entry", "volatile/blocks-0.dat".to_string()),
-                2 => ("other-number-trio-file", format!("immutable/{:05}.{}", if n > 0 && g.rng.coin() { n - 1 } else { (n + 1).min(beacon + 1) }, g.rng.pick(&EXTS))),
+                2 => ("other-number-trio-file", format!("immutable/{:05}.{}", if n > 0 && round % 2 == 0 { n - 1 } else { (n + 1).min(beacon + 1) }, g.rng.pick(&EXTS))),
                 3 => ("trio-file-beyond-expected", format!("immutable/{:05}.chunk", beacon + 2 + g.rng.below(3))),
                 4 => ("stray-in-immutable", "immutable/stray.txt".to_string()),
                 5 => ("nested-in-immutable", "immutable/sub/00001.chunk".to_string()),
@@ -241,7 +349,26 @@ fn gen_imm_archive(g: &mut Gen, n: u64, beacon: u64, kinds: &mut Vec<String>, ho
                 8 => ("dotdot", "../escape.txt".to_string()),
                 9 => ("manifest-in-immutable-archive", "ancillary_manifest.json".to_string()),
                 10 => ("overwrite-user-file", "myfile.txt".to_string()),
-                _ => ("overwrite-user-file-in-immutable", "immutable/notes.txt".to_string()),
+                11 => ("overwrite-user-file-in-immutable", "immutable/notes.txt".to_string()),
+                // the number of an expected trio under a name that is NOT one of the three expected names
+                12 => {
+                    let m = if round % 2 == 0 { n } else { g.rng.range(0, beacon) };
+                    ("trio-lookalike", match round % LOOKALIKES {
+                        0 => format!("immutable/{m:05}.txt"),
+                        1 => format!("immutable/{m:05}.chunk.bak"),
+                        2 => format!("immutable/{m}.chunk"),
+                        3 => format!("immutable/{m:06}.chunk"),
+                        4 => format!("immutable/{m:05}.CHUNK"),
+                        5 => format!("immutable/{m:05}"),
+                        6 => format!("immutable/.{m:05}.chunk"),
+                        7 => format!("immutable/{m:05}.chunk "),
+                        _ => format!("immutable/{m:05}.primary.secondary"),
+                    })
+                }
+                // a DIRECTORY carrying an expected trio name (of a number this download does not fetch)
+                13 => ("dir-named-as-trio", format!("immutable/{:05}.{}/inside.txt", if lo > 0 { g.rng.range(0, lo - 1) } else { beacon + 1 }, g.rng.pick(&EXTS))),
+                14 => ("directory-lookalike", (*g.rng.pick(&["immutablex/00001.chunk", "immutable.bak/00001.chunk", "IMMUTABLE/00001.chunk", "db/immutable/00001.chunk"])).to_string()),
+                _ => ("file-below-user-directory", "immutable/keep/evil.txt".to_string()),
             };
             kinds.push(format!("imm:{tag}"));
             let id = g.fresh();
@@ -254,55 +381,104 @@ fn gen_imm_archive(g: &mut Gen, n: u64, beacon: u64, kinds: &mut Vec<String>, ho
     Archive { entries, fail_after: None }
 }
 
-fn gen(rng: &mut Rng, next: &mut u64) -> Scenario {
-    let mut g = Gen { rng, next: *next };
+const N_ANC: u64 = 22;
+
+/// several downloads at a time, one immutable archive breaks after a while: the batch is aborted while
+/// the (large) ancillary archive is still being unpacked.  Timing dependent: implementation only.
+fn gen_abort(g: &mut Gen) -> Scenario {
+    let beacon = 2;
+    let big = |g: &mut Gen| BIG_LO + (g.fresh_nonempty() % 90_000) * 10 + 4 + g.rng.below(6);
+    let mut bad = Archive { entries: (0..8).map(|i| (format!("immutable/0000{}.chunk", i % 3), 0)).collect(), fail_after: Some(8) };
+    bad.entries = vec![("immutable/00000.chunk".to_string(), big(g)), ("immutable/00000.primary".to_string(), big(g)), ("immutable/00000.secondary".to_string(), big(g))];
+    bad.fail_after = Some(3);
+    let mut imm = vec![(0u64, vec![Some(bad)])];
+    for n in 1..=beacon { imm.push((n, vec![Some(Archive { entries: trio(n).iter().map(|p| (p.clone(), g.fresh())).collect(), fail_after: None })])); }
+    let files: Vec<(String, u64)> = (0..60).map(|i| (format!("ledger/{}/state", 1000 + i), big(g))).collect();
+    let data: Vec<(String, Dv)> = files.iter().map(|(p, c)| (p.clone(), Dv::Of(*c))).collect();
+    let mid = g.fresh_nonempty() + 9_000_000;
+    let mut entries = files;
+    entries.push(("ancillary_manifest.json".into(), mid));
+    Scenario {
+        kind: "parallel:batch-aborted-while-ancillary-in-flight".into(), init: vec![("myfile.txt".into(), g.fresh())], beacon, range: Rg::Full,
+        allow_override: true, anc: true, has_key: true, net_known: true, par: 20, imm,
+        anc_locs: vec![Some(Archive { entries, fail_after: None })],
+        manifests: vec![Manifest { id: mid, data: data.clone(), sig: Sig::By(1, data) }], comp: [g.rng.below(2) as u8, 0], prior: None, impl_only: true, hex_tokens: vec![],
+    }
+}
+
+fn gen(rng: &mut Rng, next: &mut u64, counters: &mut (u64, u64)) -> Scenario {
+    let mut g = Gen { rng, next: *next, hostile_no: counters.0, anc_no: counters.1 };
+    if g.rng.chance(1, 40) {
+        let s = gen_abort(&mut g);
+        *next = g.next;
+        return s;
+    }
     let mut kinds: Vec<String> = vec![];
-    let beacon = g.rng.range(1, 5);
+    // mostly small beacons; now and then two-digit numbers (numeric, not lexicographic, order of tasks and names)
+    let beacon = if g.rng.chance(1, 8) { g.rng.range(9, 12) } else { g.rng.range(1, 5) };
+    let near = |g: &mut Gen| if beacon > 6 { g.rng.range(beacon - 3, beacon) } else { g.rng.range(0, beacon) };
     let anc = g.rng.chance(1, 2);
     let range = if anc {
-        match g.rng.below(4) { 0 => Rg::Full, 1 => Rg::From(g.rng.range(0, beacon)), 2 => Rg::Range(g.rng.range(0, beacon), beacon), _ => Rg::UpTo(beacon - g.rng.below(2)) }
+        match g.rng.below(4) { 0 if beacon <= 6 => Rg::Full, 0 | 1 => Rg::From(near(&mut g)), 2 => Rg::Range(near(&mut g), beacon), _ if beacon <= 6 => Rg::UpTo(beacon - g.rng.below(2)), _ => Rg::From(beacon) }
     } else {
-        match g.rng.below(4) { 0 => Rg::Full, 1 => Rg::From(g.rng.range(0, beacon)), 2 => { let a = g.rng.range(0, beacon); Rg::Range(a, g.rng.range(a, beacon)) } _ => Rg::UpTo(g.rng.range(0, beacon)) }
+        match g.rng.below(4) { 0 if beacon <= 6 => Rg::Full, 0 | 1 => Rg::From(near(&mut g)), 2 => { let a = near(&mut g); Rg::Range(a, g.rng.range(a, beacon)) } _ => Rg::UpTo(g.rng.range(0, beacon.min(4))) }
     };
+    let anc_ledger = format!("ledger/{}/state", g.rng.range(1000, 9999));
     // initial content of the target directory
     let mut init: Vec<(String, u64)> = vec![];
     match g.rng.below(4) {
         0 => {}
         1 => { init.push(("myfile.txt".into(), g.fresh())); kinds.push("init:user-file".into()); }
         _ => {
-            for n in 0..g.rng.range(1, beacon) { for p in trio(n) { init.push((p, g.fresh())); } }
+            for n in 0..g.rng.range(1, beacon.min(5)) { for p in trio(n) { init.push((p, g.fresh())); } }
             if g.rng.coin() { init.push(("immutable/notes.txt".into(), g.fresh())); }
+            if g.rng.coin() { init.push(("immutable/sub/old.txt".into(), g.fresh())); }
+            if g.rng.coin() { init.push(("immutable/keep/mine.txt".into(), g.fresh())); }
             if g.rng.coin() { init.push(("myfile.txt".into(), g.fresh())); }
             if g.rng.chance(1, 3) { init.push(("ledger/old-state".into(), g.fresh())); }
             if g.rng.chance(1, 4) { init.push(("clean".into(), g.fresh())); }
+            // files at the very paths an ancillary manifest is going to list
+            if g.rng.chance(1, 3) { init.push((anc_ledger.clone(), g.fresh())); kinds.push("init:file-at-manifest-path".into()); }
+            if g.rng.chance(1, 4) { init.push(("volatile/blocks-0.dat".into(), g.fresh())); kinds.push("init:file-at-manifest-path".into()); }
+            if g.rng.chance(1, 4) { init.push((trio(beacon + 1)[0].clone(), g.fresh())); kinds.push("init:file-at-manifest-path".into()); }
             kinds.push("init:existing-db".into());
         }
     }
     let allow_override = !g.rng.chance(1, 10);
     let has_key = !g.rng.chance(1, 12);
     let net_known = g.rng.chance(3, 4);
-    let zstd = [g.rng.coin(), g.rng.coin()];
+    let comp_of = |g: &mut Gen| if g.rng.chance(1, 14) { 2u8 } else { g.rng.below(2) as u8 };
+    let comp = [comp_of(&mut g), comp_of(&mut g)];
     let (lo, hi) = range_bounds(&range, beacon).unwrap_or((0, beacon));
     // immutable archives
     let hostile_case = g.rng.chance(1, 2);
     let mut imm = vec![];
+    let mut any_failure = false;
     for n in lo..=hi {
         let hostile = hostile_case && g.rng.chance(1, 2);
-        let good = gen_imm_archive(&mut g, n, beacon, &mut kinds, hostile);
-        let locs: Vec<Location> = match g.rng.below(12) {
-            0 => { kinds.push("loc:first-missing".into()); vec![None, Some(good)] }
+        let good = gen_imm_archive(&mut g, n, beacon, lo, &mut kinds, hostile);
+        let locs: Vec<Location> = match g.rng.below(14) {
+            0 => { kinds.push("loc:first-missing".into()); any_failure = true; vec![None, Some(good)] }
             1 => {
                 // first location corrupt after some entries (maybe leaving a stray), second fine
-                let mut bad = gen_imm_archive(&mut g, n, beacon, &mut kinds, true);
+                let mut bad = gen_imm_archive(&mut g, n, beacon, lo, &mut kinds, true);
                 bad.fail_after = Some(g.rng.below(bad.entries.len() as u64 + 1) as usize);
                 kinds.push("loc:first-corrupt-second-good".into());
+                any_failure = true;
                 vec![Some(bad), Some(good)]
             }
             2 => {
-                let mut bad = gen_imm_archive(&mut g, n, beacon, &mut kinds, true);
+                let mut bad = gen_imm_archive(&mut g, n, beacon, lo, &mut kinds, true);
                 bad.fail_after = Some(g.rng.below(bad.entries.len() as u64 + 1) as usize);
                 kinds.push("loc:all-fail".into());
+                any_failure = true;
                 if g.rng.coin() { vec![Some(bad), None] } else { vec![None, Some(bad)] }
+            }
+            3 => {
+                // both locations work and differ: only the first may be used
+                let other = gen_imm_archive(&mut g, n, beacon, lo, &mut kinds, true);
+                kinds.push("loc:second-good-differs".into());
+                vec![Some(good), Some(other)]
             }
             _ => if g.rng.coin() { vec![Some(good)] } else { vec![Some(good), None] },
         };
@@ -311,9 +487,17 @@ fn gen(rng: &mut Rng, next: &mut u64) -> Scenario {
     // ancillary archive
     let mut anc_locs = vec![];
     let mut manifests = vec![];
+    let mut prior = None;
+    let mut anc_sure = !anc;
+    let mut hex_tokens: Vec<(String, u64)> = vec![];
     if anc {
+        let no = g.anc_no;
+        g.anc_no += 1;
+        let (kind, round) = (no % N_ANC, no / N_ANC);
+        let big = matches!(kind, 16 | 17);
+        let big_base = BIG_LO + (g.fresh_nonempty() % 90_000) * 10;
         let mut files: Vec<(String, u64)> = vec![
-            (format!("ledger/{}/state", g.rng.range(1000, 9999)), g.fresh()),
+            (anc_ledger.clone(), if big { big_base } else { g.fresh() }),
             ("volatile/blocks-0.dat".into(), g.fresh()),
         ];
         for p in trio(beacon + 1) { files.push((p, g.fresh())); }
@@ -323,45 +507,124 @@ fn gen(rng: &mut Rng, next: &mut u64) -> Scenario {
         let mut entries = files.clone();
         let mut manifest_entry = true;
         let mut parsable = true;
-        let t = match g.rng.below(14) {
-            0 => { let i = g.rng.below(entries.len() as u64) as usize; entries[i].1 = g.fresh().max(2) + 5_000_000; "content-changed" }
+        let mut want_prior = g.rng.coin();
+        let mut decoy: Option<Manifest> = None;
+        let pick = (round as usize) % entries.len();
+        let t = match kind {
+            0 => { entries[pick].1 = g.fresh().max(2) + 5_000_000; "content-changed" }
             1 => { data.push(("ledger/added".into(), Dv::Of(g.fresh()))); sig = Sig::By(1, data.clone()); "listed-file-absent" }
             2 => { data.push(("ledger/added".into(), Dv::Of(g.fresh()))); "entry-added-after-signature" }
-            3 => { data.remove(0); "entry-removed-after-signature" }
-            4 => { data.remove(0); sig = Sig::By(1, data.clone()); "unlisted-file-in-archive" }
+            3 => { data.remove(pick); "entry-removed-after-signature" }
+            4 => { data.remove(pick); sig = Sig::By(1, data.clone()); "unlisted-file-in-archive" }
             5 => { sig = Sig::Junk; "signature-altered" }
             6 => { sig = Sig::Missing; "signature-removed" }
             7 => { sig = Sig::By(2, signed.clone()); "signed-with-another-key" }
             8 => { parsable = false; "manifest-unparsable" }
             9 => { manifest_entry = false; "manifest-absent" }
             10 => { entries.push(("ledger/unlisted-extra".into(), g.fresh())); entries.push(("extra-at-root".into(), g.fresh())); entries.push(("../escape2".into(), g.fresh())); "extra-unlisted-entries" }
-            11 => { let i = g.rng.below(data.len() as u64) as usize; data[i].1 = Dv::Junk(5); sig = Sig::By(1, data.clone()); "signed-hash-does-not-match-file" }
+            11 => { data[pick].1 = Dv::Junk(5); sig = Sig::By(1, data.clone()); "signed-hash-does-not-match-file" }
+            // the content of a listed file is replaced AND its hash in the manifest is brought in line;
+            // only the signature (an authentic one, over the original data) can tell
+            12 => { let c = g.fresh().max(2) + 5_000_000; entries[pick].1 = c; data[pick].1 = Dv::Of(c); want_prior = true; "rehash-stale-signature" }
+            // a listed file is moved to another path, the manifest follows, the signature is the original one
+            13 => { let p = format!("ledger/{}/state", g.rng.range(100, 999)); let i = round as usize % 2; entries[i].0 = p.clone(); data[i].0 = p; want_prior = true; "rename-stale-signature" }
+            // two listed files exchange their contents; manifest in line; same keys, same multiset of hashes
+            14 => { let j = (pick + 1) % entries.len(); let (a, b) = (entries[pick].1, entries[j].1); entries[pick].1 = b; entries[j].1 = a; data[pick].1 = Dv::Of(b); data[j].1 = Dv::Of(a); want_prior = true; "swap-contents-stale-signature" }
+            // an authentic manifest comes first in the archive, a forged unsigned one replaces it
+            15 => {
+                let c = g.fresh().max(2) + 5_000_000; entries[pick].1 = c; data[pick].1 = Dv::Of(c); sig = Sig::Missing;
+                decoy = Some(Manifest { id: g.fresh_nonempty() + 9_500_000, data: signed.clone(), sig: Sig::By(1, signed.clone()) });
+                "authentic-manifest-overwritten-by-forged"
+            }
+            // the file differs from the listed one only after the first 64 KiB: tail changed, cut, or extended
+            16 => { entries[0].1 = big_base + 1 + round % 3; "content-changed-after-first-64KiB" }
+            17 => "honest-large-file",
+            18 => { data.clear(); sig = Sig::By(1, vec![]); "empty-manifest-signed" }
+            19 => { data.clear(); "empty-manifest-stale-signature" }
+            // AncillaryFilesManifest::compute_hash concatenates keys and values without separators: the
+            // last two entries (k4, v4), (k5, v5) of the signed manifest are replaced by ONE entry
+            // (k4 ++ v4 ++ k5, v5); the hashed stream, hence the authentic signature, is unchanged
+            20 => {
+                let (k4, c4) = files[0].clone();
+                let (k5, c5) = files[1].clone();
+                let hex = sha_hex(&content_bytes(c4, &HashMap::new()));
+                let key = format!("{k4}{hex}{k5}");
+                hex_tokens.push((hex, c4));
+                data.retain(|(p, _)| *p != k4 && *p != k5);
+                data.push((key.clone(), Dv::Of(c5)));
+                entries.push((key, c5));
+                want_prior = g.rng.coin();
+                "manifest-resplit-stale-signature"
+            }
             _ => "honest",
         };
+        anc_sure = matches!(kind, 17 | 21);
         kinds.push(format!("anc:{t}"));
-        let mid = g.fresh().max(2) + 9_000_000;
+        let mid = g.fresh_nonempty() + 9_000_000;
         if parsable { manifests.push(Manifest { id: mid, data, sig }); }
         if manifest_entry { entries.insert(g.rng.below(entries.len() as u64 + 1) as usize, ("ancillary_manifest.json".into(), mid)); }
+        if let Some(d) = decoy {
+            entries.insert(0, ("ancillary_manifest.json".into(), d.id));
+            manifests.push(d);
+        }
+        if want_prior && has_key {
+            kinds.push("same-client-after-honest-download".into());
+            prior = Some(Prior { files, manifest: Manifest { id: g.fresh_nonempty() + 9_700_000, data: signed.clone(), sig: Sig::By(1, signed) } });
+        }
         let a = Archive { entries, fail_after: None };
         anc_locs = match g.rng.below(8) {
-            0 => { kinds.push("anc-loc:first-missing".into()); vec![None, Some(a)] }
-            1 => { kinds.push("anc-loc:all-missing".into()); vec![None] }
-            2 => { let mut bad = a.clone(); bad.fail_after = Some(g.rng.below(bad.entries.len() as u64) as usize); kinds.push("anc-loc:corrupt".into()); vec![Some(bad)] }
+            0 => { kinds.push("anc-loc:first-missing".into()); any_failure = true; vec![None, Some(a)] }
+            1 => { kinds.push("anc-loc:all-missing".into()); any_failure = true; vec![None] }
+            2 => { let mut bad = a.clone(); bad.fail_after = Some(g.rng.below(bad.entries.len() as u64) as usize); kinds.push("anc-loc:corrupt".into()); any_failure = true; vec![Some(bad)] }
             _ => vec![Some(a)],
         };
+    }
+    // a location served without compression that has nothing to serve: the unpack thread creates the
+    // (empty) file while the download fails, and it is not awaited - timing dependent, left out
+    let mut comp = comp;
+    for i in 0..2 {
+        let missing = |ls: &Vec<Location>| matches!(ls.get(i), Some(None));
+        if comp[i] == 2 && (imm.iter().any(|(_, ls)| missing(ls)) || missing(&anc_locs)) { comp[i] = 0; }
+    }
+    // no file may sit where another entry needs a directory (the model has no file / directory conflicts)
+    let mut file_paths: std::collections::HashSet<String> = init.iter().map(|(p, _)| p.clone()).collect();
+    for (_, ls) in &imm { for a in ls.iter().flatten() { for (p, _) in &a.entries { file_paths.insert(p.clone()); } } }
+    for m in &manifests { for (p, _) in &m.data { file_paths.insert(p.clone()); } }
+    let below_a_file = |p: &str| p.match_indices('/').any(|(i, _)| file_paths.contains(&p[..i]));
+    for (_, ls) in imm.iter_mut() { for a in ls.iter_mut().flatten() {
+        let before = a.entries.len();
+        a.entries.retain(|(p, _)| !below_a_file(p));
+        if let Some(k) = a.fail_after { a.fail_after = Some(k.min(a.entries.len())); }
+        let _ = before;
+    } }
+    // downloads at a time: 1 as a rule; 0 (nothing is downloaded at all); several when the outcome does
+    // not depend on the interleaving (no attempt fails, the ancillary step succeeds, no path is written
+    // by two archives)
+    let mut par = 1usize;
+    if g.rng.chance(1, 25) { par = 0; kinds.push("parallel:0".into()); }
+    else if !any_failure && anc_sure && comp.iter().all(|c| *c != 2) && (has_key || !anc) {
+        let mut seen: std::collections::HashSet<String> = Default::default();
+        let mut disjoint = true;
+        for (_, ls) in &imm { if let Some(Some(a)) = ls.first() { for (p, _) in &a.entries { disjoint &= seen.insert(p.clone()); } } }
+        for m in &manifests { for (p, _) in &m.data { disjoint &= seen.insert(p.clone()); } }
+        if disjoint { par = *g.rng.pick(&[2usize, 3, 20]); kinds.push("parallel:several".into()); }
     }
     if !hostile_case { kinds.push("imm:honest".into()); }
     if !allow_override { kinds.push("no-override".into()); }
     if !has_key && anc { kinds.push("no-ancillary-key".into()); }
+    if comp.contains(&2) { kinds.push("loc:no-compression".into()); }
+    if beacon > 6 { kinds.push("two-digit-numbers".into()); }
     *next = g.next;
+    *counters = (g.hostile_no, g.anc_no);
     kinds.sort();
     kinds.dedup();
-    Scenario { kind: kinds.join("+"), init, beacon, range, allow_override, anc, has_key, net_known, imm, anc_locs, manifests, zstd }
+    Scenario { kind: kinds.join("+"), init, beacon, range, allow_override, anc, has_key, net_known, par, imm, anc_locs, manifests, comp, prior, impl_only: false, hex_tokens }
 }
 
-/// the manifest JSON as the aggregator would write it, signed with the real keys
-fn manifest_json(m: &Manifest, signers: &[ManifestSigner; 2], blobs: &HashMap<u64, Vec<u8>>) -> Vec<u8> {
-    let val = |d: &Dv| match d { Dv::Of(id) => sha_hex(&content_bytes(*id, blobs)), Dv::Junk(k) => format!("junk-hash-{k}") };
+/// the manifest JSON as the aggregator would write it, signed with the real keys; the file hashes are
+/// those `AncillaryFilesManifest::from_paths` (the aggregator's way) computes, given in `hashes`
+fn manifest_json(m: &Manifest, signers: &[ManifestSigner; 2], hashes: &HashMap<u64, String>) -> Vec<u8> {
+    let val = |d: &Dv| match d { Dv::Of(id) => hashes[id].clone(), Dv::Junk(k) => format!("junk-hash-{k}") };
     let to_map = |d: &[(String, Dv)]| d.iter().map(|(p, v)| (PathBuf::from(p), val(v))).collect::<BTreeMap<_, _>>();
     let mut man = AncillaryFilesManifest::new_without_signature(to_map(&m.data));
     match &m.sig {
@@ -377,8 +640,27 @@ fn manifest_json(m: &Manifest, signers: &[ManifestSigner; 2], blobs: &HashMap<u6
 
 struct Outcome {
     ok: bool,
+    /// the honest download made before with the same client succeeded (true when there is none)
+    prior_ok: bool,
     fin: Vec<(String, u64)>,
     err: String,
+}
+
+fn is_uuid(s: &str) -> bool {
+    let b = s.as_bytes();
+    b.len() == 36 && b.iter().enumerate().all(|(i, c)| if matches!(i, 8 | 13 | 18 | 23) { *c == b'-' } else { c.is_ascii_hexdigit() })
+}
+/// the download id is a fresh UUID: rename it in the observed paths
+fn canon_path(p: &str) -> String {
+    p.split('/').map(|c| {
+        if is_uuid(c) { DLID.to_string() }
+        else if c.strip_prefix("ancillary-").is_some_and(is_uuid) { format!("ancillary-{DLID}") }
+        else { c.to_string() }
+    }).collect::<Vec<_>>().join("/")
+}
+
+fn comp_alg(c: u8) -> Option<CompressionAlgorithm> {
+    match c { 0 => Some(CompressionAlgorithm::Gzip), 1 => Some(CompressionAlgorithm::Zstandard), _ => None }
 }
 
 async fn run_scenario(dir: &Path, s: &Scenario, signers: &[ManifestSigner; 2]) -> Outcome {
@@ -387,8 +669,25 @@ async fn run_scenario(dir: &Path, s: &Scenario, signers: &[ManifestSigner; 2]) -
     std::fs::create_dir_all(&target).unwrap();
     // blobs: manifest contents by id
     let mut blobs: HashMap<u64, Vec<u8>> = HashMap::new();
-    for m in &s.manifests {
-        let j = manifest_json(m, signers, &blobs);
+    let all_manifests: Vec<&Manifest> = s.manifests.iter().chain(s.prior.iter().map(|p| &p.manifest)).collect();
+    // hashes of the listed contents, computed as the aggregator does
+    let mut hashes: HashMap<u64, String> = HashMap::new();
+    let hdir = dir.join("hash");
+    std::fs::create_dir_all(&hdir).unwrap();
+    for m in &all_manifests {
+        let signed: &[(String, Dv)] = if let Sig::By(_, d) = &m.sig { d } else { &[] };
+        for (_, v) in m.data.iter().chain(signed.iter()) {
+            if let Dv::Of(id) = v {
+                if !hashes.contains_key(id) {
+                    std::fs::write(hdir.join("f"), content_bytes(*id, &blobs)).unwrap();
+                    let man = AncillaryFilesManifest::from_paths(&hdir, vec![PathBuf::from("f")]).await.unwrap();
+                    hashes.insert(*id, man.signable_manifest.data[&PathBuf::from("f")].clone());
+                }
+            }
+        }
+    }
+    for m in &all_manifests {
+        let j = manifest_json(m, signers, &hashes);
         blobs.insert(m.id, j);
     }
     // every id that is not a parsable manifest but sits at the manifest path: not JSON
@@ -402,21 +701,26 @@ async fn run_scenario(dir: &Path, s: &Scenario, signers: &[ManifestSigner; 2]) -
         reg(*c, &blobs);
     }
     let srv = dir.join("srv");
+    let mut raw_files: Vec<(PathBuf, u64)> = vec![];
     for (n, locs) in &s.imm {
         for (i, l) in locs.iter().enumerate() {
             if let Some(a) = l {
-                write_archive(&srv.join(format!("loc{i}")).join(format!("{n:05}.tar")), a, s.zstd[i], &blobs);
+                let f = srv.join(format!("loc{i}")).join(format!("{n:05}.tar"));
+                write_archive(&f, a, s.comp[i], &blobs);
                 for (_, c) in &a.entries { reg(*c, &blobs); }
+                if s.comp[i] == 2 { raw_files.push((f, RAW_IMM + n * 10 + i as u64)); }
             }
         }
     }
     for (i, l) in s.anc_locs.iter().enumerate() {
         if let Some(a) = l {
-            write_archive(&srv.join(format!("anc{i}.tar")), a, s.zstd[i], &blobs);
+            let f = srv.join(format!("anc{i}.tar"));
+            write_archive(&f, a, s.comp[i], &blobs);
             for (_, c) in &a.entries { reg(*c, &blobs); }
+            if s.comp[i] == 2 { raw_files.push((f, RAW_ANC + i as u64)); }
         }
     }
-    let comp = |i: usize| Some(if s.zstd[i] { CompressionAlgorithm::Zstandard } else { CompressionAlgorithm::Gzip });
+    for (f, id) in raw_files { known.entry(std::fs::read(f).unwrap()).or_insert(id); }
     let mut snapshot = CardanoDatabaseSnapshotMessage::dummy();
     snapshot.beacon = CardanoDbBeacon::new(9, s.beacon);
     snapshot.network = if s.net_known { "mainnet".into() } else { "private".into() };
@@ -426,14 +730,14 @@ async fn run_scenario(dir: &Path, s: &Scenario, signers: &[ManifestSigner; 2]) -
         // listed in reverse: the client sorts the locations before trying them
         locations: (0..nloc).rev().map(|i| ImmutablesLocation::CloudStorage {
             uri: MultiFilesUri::Template(TemplateUri(format!("file://{}/loc{i}/{{immutable_file_number}}.tar", srv.display()))),
-            compression_algorithm: comp(i),
+            compression_algorithm: comp_alg(s.comp[i]),
         }).chain(std::iter::once(ImmutablesLocation::Unknown)).collect(),
     };
     snapshot.ancillary = AncillaryMessagePart {
         size_uncompressed: 4096,
         locations: (0..s.anc_locs.len().max(1)).rev().map(|i| AncillaryLocation::CloudStorage {
             uri: format!("file://{}/anc{i}.tar", srv.display()),
-            compression_algorithm: comp(i),
+            compression_algorithm: comp_alg(s.comp[i]),
         }).collect(),
     };
     let logger = slog::Logger::root(slog::Discard, slog::o!());
@@ -446,55 +750,94 @@ async fn run_scenario(dir: &Path, s: &Scenario, signers: &[ManifestSigner; 2]) -
         builder = builder.set_ancillary_verification_key(signers[0].verification_key().to_json_hex().unwrap());
     }
     let client = builder.build().unwrap();
+    let mut prior_ok = true;
+    if let Some(p) = &s.prior {
+        // an honest download of the last immutable + ancillary files, elsewhere, with the same client
+        let srv0 = dir.join("srv0");
+        let honest_imm = Archive { entries: trio(s.beacon).iter().map(|q| (q.clone(), 3u64)).collect(), fail_after: None };
+        write_archive(&srv0.join(format!("{:05}.tar", s.beacon)), &honest_imm, 0, &blobs);
+        let mut entries = p.files.clone();
+        entries.push(("ancillary_manifest.json".into(), p.manifest.id));
+        write_archive(&srv0.join("anc.tar"), &Archive { entries, fail_after: None }, 1, &blobs);
+        let mut snap0 = snapshot.clone();
+        snap0.immutables.locations = vec![ImmutablesLocation::CloudStorage {
+            uri: MultiFilesUri::Template(TemplateUri(format!("file://{}/{{immutable_file_number}}.tar", srv0.display()))),
+            compression_algorithm: comp_alg(0),
+        }];
+        snap0.ancillary.locations = vec![AncillaryLocation::CloudStorage { uri: format!("file://{}/anc.tar", srv0.display()), compression_algorithm: comp_alg(1) }];
+        let t0 = dir.join("db0");
+        std::fs::create_dir_all(&t0).unwrap();
+        let opts = DownloadUnpackOptions { allow_override: true, include_ancillary: true, max_parallel_downloads: 1 };
+        let r0 = client.cardano_database_v2().download_unpack(&snap0, &ImmutableFileRange::From(s.beacon), &t0, opts).await;
+        prior_ok = r0.is_ok() && t0.join(&p.files[0].0).is_file();
+    }
     let range = match &s.range {
         Rg::Full => ImmutableFileRange::Full,
         Rg::From(a) => ImmutableFileRange::From(*a),
         Rg::Range(a, b) => ImmutableFileRange::Range(*a, *b),
         Rg::UpTo(b) => ImmutableFileRange::UpTo(*b),
     };
-    let opts = DownloadUnpackOptions { allow_override: s.allow_override, include_ancillary: s.anc, max_parallel_downloads: 1 };
+    let opts = DownloadUnpackOptions { allow_override: s.allow_override, include_ancillary: s.anc, max_parallel_downloads: s.par };
     let r = client.cardano_database_v2().download_unpack(&snapshot, &range, &target, opts).await;
+    if s.impl_only {
+        // let threads that outlive an aborted batch finish what they are doing
+        tokio::time::sleep(std::time::Duration::from_millis(300)).await;
+    }
     let mut raw = vec![];
     listing(&target, "", &mut raw);
-    raw.sort();
-    let fin = raw.into_iter().map(|(p, b)| { let id = *known.get(&b).unwrap_or(&UNKNOWN_ID); (p, id) }).collect();
-    Outcome { ok: r.is_ok(), err: r.err().map(|e| format!("{e:#}").chars().take(160).collect()).unwrap_or_default(), fin }
+    let mut fin: Vec<(String, u64)> = raw.into_iter().map(|(p, b)| { let id = *known.get(&b).unwrap_or(&UNKNOWN_ID); (canon_path(&p), id) }).collect();
+    fin.sort();
+    Outcome { ok: r.is_ok(), prior_ok, err: r.err().map(|e| format!("{e:#}").chars().take(160).collect()).unwrap_or_default(), fin }
 }
 
 /// containment, judged from provenance
 fn judge(s: &Scenario, o: &Outcome) -> (bool, Option<String>, Option<String>) {
     let bounds = range_bounds(&s.range, s.beacon);
+    let imm = effective_imm(s);
+    let anc_locs = effective_anc(s);
     // is the manifest of the archive that was used authentic and consistent with the archive?
-    let used_anc: Option<&Archive> = s.anc_locs.iter().flatten().find(|a| a.fail_after.is_none());
+    let used_anc: Option<&Archive> = anc_locs.iter().flatten().find(|a| a.fail_after.is_none());
     let mut vouched: Vec<(String, u64)> = vec![];
+    let mut same_stream: Vec<(String, u64)> = vec![];
     if let (true, true, Some(a)) = (s.anc, s.has_key, used_anc) {
         let mid = a.entries.iter().rev().find(|(p, _)| p == "ancillary_manifest.json").map(|(_, c)| *c);
         if let Some(m) = mid.and_then(|id| s.manifests.iter().find(|m| m.id == id)) {
-            let authentic = matches!(&m.sig, Sig::By(1, signed) if *signed == m.data);
+            let authentic = matches!(&m.sig, Sig::By(1, signed) if canon(signed) == canon(&m.data));
             let content_of = |p: &str| a.entries.iter().rev().find(|(q, _)| q == p).map(|(_, c)| *c);
             let consistent = m.data.iter().all(|(p, v)| matches!((content_of(p), v), (Some(c), Dv::Of(id)) if c == *id));
             if authentic && consistent {
                 vouched = m.data.iter().filter_map(|(p, _)| content_of(p).map(|c| (p.clone(), c))).collect();
             }
+            // not the signed manifest, but one that hashes to the same byte stream (keys and values are
+            // concatenated without separators)
+            let stream = |d: &[(String, Dv)]| canon(d).iter().map(|(p, v)| format!("{p}{}", match v { Dv::Of(id) => sha_hex(&content_bytes(*id, &HashMap::new())), Dv::Junk(k) => format!("junk-hash-{k}") })).collect::<String>();
+            if let Sig::By(1, signed) = &m.sig {
+                if !authentic && consistent && stream(signed) == stream(&m.data) {
+                    same_stream = m.data.iter().filter_map(|(p, _)| content_of(p).map(|c| (p.clone(), c))).collect();
+                }
+            }
         }
     }
+    let mut first_known: Option<(String, Option<String>)> = None;
     for (p, c) in &o.fin {
         if s.init.iter().any(|(q, d)| q == p && d == c) { continue; }
         if o.ok && ((p == "clean" && *c == 0) || (p == "protocolMagicId" && *c == 1 && s.net_known)) { continue; }
         // a ranged immutable file from an archive for its own number
         let mut own = false;
         if let Some((lo, hi)) = bounds {
-            for (n, locs) in &s.imm {
+            for (n, locs) in &imm {
                 if *n >= lo && *n <= hi && trio(*n).contains(p) && locs.iter().flatten().any(|a| a.entries.iter().any(|(q, d)| q == p && d == c)) { own = true; }
             }
         }
         if own { continue; }
         if vouched.iter().any(|(q, d)| q == p && d == c) { continue; }
         // not justified: classify
-        let from_imm = s.imm.iter().find(|(_, locs)| locs.iter().flatten().any(|a| a.entries.iter().any(|(q, d)| q == p && d == c)));
+        let from_imm = imm.iter().find(|(_, locs)| locs.iter().flatten().any(|a| a.entries.iter().any(|(q, d)| q == p && d == c)));
         let why = format!("`{p}` (content #{c}) is in the target directory after the download (success = {}), but it was not there before, is not a marker, not an immutable file of the range from the archive of its own number, and not vouched by an authentic manifest{}", o.ok,
             match from_imm { Some((n, _)) => format!("; it comes from the archive of immutable {n}"), None => String::new() });
         let known = match from_imm {
+            _ if same_stream.iter().any(|(q, d)| q == p && d == c) => Some("C19-manifest-hash-ambiguity".to_string()),
+            _ if s.par > 1 && !o.ok && p.starts_with(&format!("ancillary-{DLID}/")) => Some("C19-aborted-ancillary-temp".to_string()),
             Some(_) if !p.starts_with("immutable/") => Some("C19-foreign-entry".to_string()),
             Some(_) => {
                 // inside immutable/: let through by design only when its first component is expected
@@ -506,9 +849,15 @@ fn judge(s: &Scenario, o: &Outcome) -> (bool, Option<String>, Option<String>) {
             }
             None => None,
         };
-        return (false, Some(why), known);
+        // a file outside every known class decides; one inside a known class is reported only when
+        // nothing else is wrong
+        if known.is_none() { return (false, Some(why), None); }
+        if first_known.is_none() { first_known = Some((why, known)); }
     }
-    (true, None, None)
+    match first_known {
+        Some((why, known)) => (false, Some(why), known),
+        None => (true, None, None),
+    }
 }
 
 fn main() {
@@ -520,29 +869,35 @@ fn main() {
     std::env::set_var("TMPDIR", &work);
     let rt = tokio::runtime::Builder::new_multi_thread().worker_threads(4).enable_all().build().unwrap();
     let signers = [ManifestSigner::create_deterministic_signer(), ManifestSigner::create_non_deterministic_signer()];
-    let n = if args.thorough { 2500 } else { 160 };
+    let n = if args.thorough { 1600 } else { 240 };
     let mut next = 10u64;
+    let mut counters = (0u64, 0u64);
     for _ in 0..n {
-        let s = gen(&mut rng, &mut next);
+        let s = gen(&mut rng, &mut next, &mut counters);
         let Some(id) = sink.wants() else { continue };
         let dir = work.join(format!("case{id}"));
         let o = rt.block_on(run_scenario(&dir, &s, &signers));
         let (holds, why, known) = judge(&s, &o);
+        HEX_TOKENS.with(|t| *t.borrow_mut() = s.hex_tokens.clone());
         let impl_obs = coq::ol(&[
-            coq::ob(o.ok),
-            coq::ol(&o.fin.iter().map(|(p, c)| coq::ol(&[coq::oln(&p.bytes().map(|b| b as u64).collect::<Vec<_>>()), coq::on(*c)])).collect::<Vec<_>>()),
+            coq::ol(&[
+                coq::ob(o.ok),
+                coq::ol(&o.fin.iter().map(|(p, c)| coq::ol(&[coq::oln(&tokens(p)), coq::on(*c)])).collect::<Vec<_>>()),
+            ]),
+            coq::ob(o.prior_ok),
         ]);
         sink.push(Case {
             id,
             kind: s.kind.clone(),
             desc: serde_json::json!({
                 "beacon": s.beacon, "range": format!("{:?}", s.range), "include_ancillary": s.anc, "allow_override": s.allow_override,
-                "ancillary_key_configured": s.has_key, "network_known": s.net_known,
+                "ancillary_key_configured": s.has_key, "network_known": s.net_known, "max_parallel_downloads": s.par,
                 "initial": s.init, "immutable_archives": format!("{:?}", s.imm), "ancillary_locations": format!("{:?}", s.anc_locs),
-                "manifests": format!("{:?}", s.manifests), "zstd_per_location": s.zstd,
-                "success": o.ok, "error": o.err, "final": o.fin,
+                "manifests": format!("{:?}", s.manifests), "compression_per_location (0 gzip, 1 zstd, 2 none)": s.comp,
+                "honest_download_before_with_same_client": s.prior.is_some(),
+                "honest_download_before_succeeded": o.prior_ok, "success": o.ok, "error": o.err, "final": o.fin,
             }),
-            model: Some(format!("C19.Model.run {}", cscenario(&s))),
+            model: if s.impl_only { None } else { Some(format!("OL [C19.Model.run {}; OB true]", cscenario(&s))) },
             impl_obs,
             holds: Some(holds),
             why,
